@@ -80,7 +80,7 @@ def make_plan(run_seed: int, profile: Dict[str, Any]) -> Dict[str, Any]:
             family_i, grammar_i = make_grammar(rng, profile.get("family"))
         else:
             family_i, grammar_i = family, grammar
-        formula = gen_formula(grammar_i, rng)
+        formula = gen_formula(grammar_i, rng, family_i)
         scenarios.append(
             {
                 "family": family_i,
@@ -477,6 +477,9 @@ def _run(plan, world: World, monitors: Monitors, record):
         if kind != "solve":
             apiops.run_api_op(kind, op, op_index, solver, sc, h, recogs[i], world, record)
             continue
+        if "t_first_solve" not in h:
+            # elapsed time on the monotonic virtual clock since the first solve() call
+            h["t_first_solve"] = world.clock.now_virtual()
         try:
             tree = solver.solve()
             outcome = "tree"
@@ -521,6 +524,13 @@ def _run(plan, world: World, monitors: Monitors, record):
         # C02 history oracle
         if outcome == "timeout" and sc["settings"]["timeout_seconds"] is None:
             viol.append({"property": "C02", "clause": "timeout_without_configured_timeout", "op_index": op_index, "solver": i, "detail": "TimeoutError raised, no timeout configured"})
+        elif outcome == "timeout" and h["terminal"] is None:
+            # "TimeoutError (timeout configured)": the configured timeout must actually
+            # have elapsed (ISLa truncates both readings to whole seconds: 1.5 s slack)
+            elapsed = world.clock.now_virtual() - h["t_first_solve"]
+            if elapsed < sc["settings"]["timeout_seconds"] - 1.5:
+                viol.append({"property": "C02", "clause": "timeout_before_configured_timeout", "op_index": op_index, "solver": i,
+                             "detail": f"TimeoutError after {elapsed:.2f} virtual s, configured timeout is {sc['settings']['timeout_seconds']} s"})
         if h["terminal"] is not None:
             stats["terminal_reprobed"] += 1
             if outcome != h["terminal"]:
